@@ -1504,6 +1504,20 @@ func (gqm *GroupQuotaManager) deleteQuotaNoLock(quota *v1alpha1.ElasticQuota) er
 		gqm.updateGroupDeltaUsedNoLock(quotaInfo.ParentName, deltaUsed, deltaNonPreemptibleUsed, -1)
 	}
 
+	// update guarantee
+	// the ancestors were handed this quota's Guaranteed = max(Allocated, Min); the used walk above returned its
+	// Allocated (= Used) only. Return the rest.
+	if utilfeature.DefaultFeatureGate.Enabled(features.ElasticQuotaGuaranteeUsage) {
+		rest := quotav1.Subtract(quotaInfo.CalculateInfo.Allocated, quotaInfo.CalculateInfo.Guaranteed)
+		if !quotav1.IsZero(rest) {
+			if parents := gqm.getCurToAllParentGroupQuotaInfoNoLock(quotaInfo.ParentName); len(parents) > 0 {
+				unlock := gqm.scopedLockForQuotaInfo(parents)
+				gqm.recursiveUpdateGroupTreeWithDeltaAllocated(rest, parents)
+				unlock()
+			}
+		}
+	}
+
 	klog.Infof("delete quota %v for quota tree %v", quota.Name, gqm.treeID)
 
 	return nil
